@@ -707,7 +707,10 @@ func trimStack(b []byte) string {
 	lines := strings.Split(string(b), "\n")
 	var out []string
 	for _, l := range lines {
-		if strings.Contains(l, "vsym/") {
+		if strings.Contains(l, "vsym/") && !strings.HasPrefix(l, "\t") {
+			if i := strings.LastIndex(l, "("); i > 0 {
+				l = l[:i]
+			}
 			out = append(out, strings.TrimSpace(l))
 		}
 		if len(out) > 14 {
